@@ -1,0 +1,19 @@
+//go:build verif
+
+package directive
+
+// VerifKeywordCoords exposes the keyword coordinates (read-only) to external
+// conformance checks. Only compiled with the "verif" build tag.
+func (d Directive) VerifKeywordCoords() Coords { return d.keywordCoords }
+
+// VerifEnd exposes the end index of the coordinates.
+func (c Coords) VerifEnd() uint { return uint(c.end) }
+
+// VerifNamedParameters returns a copy of the named parameters.
+func (d Directive) VerifNamedParameters() map[string]string {
+	m := make(map[string]string, len(d.namedParameters))
+	for k, v := range d.namedParameters {
+		m[k] = v
+	}
+	return m
+}
